@@ -53,6 +53,12 @@ NATIVE_UNITS = {
     "macro_witness": {"file": "src/interpreter/interpreter.rs", "source": "macro_rules.rs",
                       "modpath": "interpreter::interpreter", "test": "verif_native_macro_witness", "role": "witness",
                       "for_fns": ["match_datum", "transform"]},
+    "library_witness": {"file": "src/interpreter/interpreter.rs", "source": "library_instances.rs",
+                        "modpath": "interpreter::interpreter", "test": "verif_native_library_witness", "role": "witness",
+                        "for_fns": ["eval_library_definition"]},
+    "library_instance_known": {"file": "src/interpreter/interpreter.rs", "source": "library_instances.rs",
+                               "modpath": "interpreter::interpreter", "test": "verif_native_library_instance_known", "role": "known",
+                               "finding": "library-instantiated-per-import"},
     "tail_arity_panic": {"file": "src/interpreter/interpreter.rs", "source": "tail_arity.rs",
                          "modpath": "interpreter::interpreter", "test": "verif_native_tail_arity_panic",
                          "role": "witness", "for_fns": ["apply_procedure"]},
@@ -77,6 +83,22 @@ _TAIL_UNVERIFIED = [
 ]
 
 PROPS = {
+    "C13": {
+        "verus": ["interp_library"], "kani": [], "native": ["library_witness", "library_instance_known"],
+        "level": "proof",
+        "explanation": "Interpreter::eval_library_definition is proved, for library definitions of any size, to evaluate the library's "
+                       "imports and body in a frame of its own (created by Environment::new(): no parent, so nothing of the importer is "
+                       "visible in it -- every call into the evaluator requires exactly that frame) and to build a library that holds "
+                       "exactly the bindings of its export specs, in order: external name |-> what the internal name is bound to in that "
+                       "frame (rename exports under the external name only; an export of an unbound name is an error, never a binding).",
+        "unverified": ["'all imports of a library within one program refer to one instance': NOT the case (known finding "
+                       "library-instantiated-per-import); get_library / new_library (factories in a HashMap) are not under contract",
+                       "that the importer gains only what eval_import_set returns (eval_import: HashMap::extend + define, not under contract)",
+                       "that redefining an imported name in the importer does not affect the library's procedures: closures capture the "
+                       "library's frame (evaluator semantics, C01) -- covered by the witness search only"],
+        "assumptions": ["LexicalScope::get is a function of the frame and the name while the exports are collected (no evaluation happens in that loop)",
+                        "HashMap::insert, Vec::extend behave as documented (wrappers / opaque type)"],
+    },
     "C12": {
         "verus": ["interp_import"], "kani": [], "native": ["import_witness"],
         "level": "proof",
